@@ -13,7 +13,6 @@ import (
 	"math/big"
 	"math/rand"
 	"os"
-	"reflect"
 	"sort"
 	"strings"
 
@@ -43,16 +42,18 @@ type Tx struct {
 }
 
 type Plan struct {
-	Name    string     `json:"name"`
-	NAdmins int        `json:"nadmins"`
-	Audit   bool       `json:"audit"`
-	Seed    int64      `json:"seed"`
-	Blocks  [][]Tx     `json:"blocks"`
+	Name    string       `json:"name"`
+	NAdmins int          `json:"nadmins"`
+	Audit   bool         `json:"audit"`
+	Seed    int64        `json:"seed"`
+	Blocks  [][]Tx       `json:"blocks"`
 	Views   map[int][]Tx `json:"views,omitempty"` // after block index i: view-execute these
 	Restart map[int]bool `json:"restart,omitempty"`
 }
 
-var contractsByName = map[string]constant.BoltContractAddress{
+var contractsByName = lockstep.ContractsByName
+
+var _unused = map[string]constant.BoltContractAddress{
 	"interchain": constant.InterchainContractAddr, "store": constant.StoreContractAddr, "rule": constant.RuleManagerContractAddr,
 	"role": constant.RoleContractAddr, "appchain": constant.AppchainMgrContractAddr, "txmgr": constant.TransactionMgrContractAddr,
 	"governance": constant.GovernanceContractAddr, "node": constant.NodeManagerContractAddr, "interbroker": constant.InterBrokerContractAddr,
@@ -273,44 +274,9 @@ func (r *runner) run(dir string) {
 // ---------------------------------------------------------------------------------------------
 var amounts = []string{"0", "1", "5", "1000", "2999999", "3000000", "3000001", "9223372036854775808", "10000000000000000000000000000000000000000", "abc", "", "-5", "1e3", "00012"}
 
-type methodInfo struct {
-	C  string   `json:"c"`
-	M  string   `json:"m"`
-	In []string `json:"in"`
-}
+type methodInfo = lockstep.MethodInfo
 
-func surface() []methodInfo {
-	// exported method surface of every registered contract, by reflection on live objects
-	dir, _ := ioutil.TempDir(os.Getenv("TMPDIR"), "surface-")
-	defer os.RemoveAll(dir)
-	n, err := core.NewNode(core.Options{Dir: dir, Seed: 1, Quiet: true})
-	if err != nil {
-		panic(err)
-	}
-	defer n.Close()
-	byAddr := map[string]string{}
-	for name, a := range contractsByName {
-		byAddr[a.Address().String()] = name
-	}
-	var out []methodInfo
-	for addr, c := range n.Exec.GetBoltContracts() {
-		name, ok := byAddr[types.NewAddressByStr(addr).String()]
-		if !ok {
-			continue
-		}
-		t := reflect.TypeOf(c)
-		for i := 0; i < t.NumMethod(); i++ {
-			m := t.Method(i)
-			var in []string
-			for j := 1; j < m.Type.NumIn(); j++ {
-				in = append(in, m.Type.In(j).String())
-			}
-			out = append(out, methodInfo{name, m.Name, in})
-		}
-	}
-	sort.Slice(out, func(i, j int) bool { return out[i].C+out[i].M < out[j].C+out[j].M })
-	return out
-}
+func surface() []methodInfo { return lockstep.Surface() }
 
 func argFor(rng *rand.Rand, typ string, mode int) Arg {
 	strs := []string{"", "x", "1356:chainA:svc1", "1356:chainA:svc1-1356:chainB:svc2-1", "0x0000000000000000000000000000000000000001", "approve", "chainA", "::", "a:b", "{}", "[]", "rep:70000:ab", "%s%n", "\u0000"}
